@@ -107,8 +107,56 @@ def run(ctx, chk):
                 else:
                     why = 'sum covers offsets %s with constant %#x (expected 0x34..0x4c, each subtracted once, minus 25)' % (
                         [hex(i) for i in sorted(idx)][:30], c)
+    # value level: the returned boolean, as a function of the 80 header bytes, equals
+    #   header[0x4d] == (0 - sum over 0x34..=0x4c of (byte + 1)) mod 256   - any way of writing the sum is accepted
+    if len(rs) >= 1 and all(r_.ret is not None and T.is_int(r_.ret) for r_ in rs):
+        from .. import bvproof
+        from ..bdd import BV, Unsupported
+        try:
+            vbad = None
+            for r_ in rs:
+                m_, conv_, K_ = bvproof.setup(r_.state.env)
+                elems = {}
+                stack = [r_.ret]
+                seen_ = set()
+                while stack:
+                    x = stack.pop()
+                    if not isinstance(x, tuple) or not x or x in seen_:
+                        continue
+                    seen_.add(x)
+                    if x[0] == 's' and x[3] and x[3][0] == 'elem':
+                        i_ = r_.state.env.const_of(x[3][2])
+                        if i_ is not None:
+                            elems[i_] = x
+                    elif x[0] == 's' and x[3] and x[3][0] == 'field' and x[3][2] == 'header_checksum':
+                        elems['chk'] = x
+                    elif x[0] == 'o':
+                        stack.extend(x[3:])
+                acc = BV.const(m_, 8, 0)
+                for i_ in range(0x34, 0x4d):
+                    b_ = conv_(elems[i_]) if i_ in elems else BV.sym(m_, 'header[%#x]' % i_, 8)
+                    acc = acc - b_ - 1
+                hc = conv_(elems['chk']) if 'chk' in elems else BV.sym(m_, 'header[0x4d]', 8)
+                want_ = acc.eq(hc)
+                got_ = conv_(r_.ret).nonzero()
+                D_ = m_.AND(K_, m_.XOR(got_, want_))
+                if D_ != 0:
+                    w_ = m_.witness(D_)
+                    nz = {k_: v_ for k_, v_ in w_.items() if v_}
+                    vbad = 'accepts / rejects differently from the header checksum formula, e.g. for header bytes %s' % (
+                        ', '.join('%s=%#x' % (k_.split('.')[-1][-12:], v_) for k_, v_ in sorted(nz.items())[:6]) or 'all zero')
+            okk = vbad is None
+            if vbad:
+                why = vbad
+        except Unsupported:
+            pass
+    opaque_iter = sorted(set(e[1].split('::')[-1] for r_ in rs for e in r_.state.events
+                             if e[0] == 'extcall' and any(k_ in e[1] for k_ in ('iter', 'Iterator', 'fold', 'sum', 'IntoIter'))))
     if okk:
         chk.ok('C19.2', 'checksum', sample={'range': '0x34..=0x4c', 'recurrence': 'x = x - byte - 1', 'compared_with': 'header_checksum @0x4d'})
+    elif opaque_iter:
+        # the sum is computed by library iterator adaptors whose bodies are not part of the crate: no verdict
+        chk.error('C19.2: valid_checksum computes the sum through %s, which this check does not model (no verdict)' % opaque_iter)
     else:
         chk.fail('C19.2', 'checksum', 'valid_checksum: %s' % why, 'src/cart.rs', None)
     # as_buffer covers the whole header from its first byte
